@@ -33,7 +33,7 @@ var baseWeights = map[string]float64{
 	"did_bind": 1.2, "did_update": 0.3, "sid_payaddr": 0.2, "ready": 6,
 	"store_new": 10, "store_update": 6, "complete": 22, "cancel": 2, "terminate": 2, "renew": 3, "migrate": 2,
 	"perm": 2, "claim": 4, "add_vstorage": 2, "remove_vstorage": 2, "node_reset": 1.5, "report": 1, "recover": 1,
-	"send": 1, "delegate": 1, "undelegate": 0.7, "redelegate": 0.4, "adv": 3, "set_payaddr": 0.5, "node_create": 0.3,
+	"gov_param": 0.25, "send": 1, "delegate": 1, "undelegate": 0.7, "redelegate": 0.4, "adv": 3, "set_payaddr": 0.5, "node_create": 0.3,
 }
 
 func cloneW(m map[string]float64, over map[string]float64) map[string]float64 {
@@ -162,6 +162,8 @@ type Gen struct {
 	chased      bool
 	runout      bool
 	nextOp      *Op
+	pendingOps  []*Op // further queued ops (one per following draw)
+	proposals   int
 	chaseRoll   bool
 	everSid     map[int]string // actor -> sid DID it has been listed in at some point
 	chase12     int            // remaining jumps to the next examination of a stalled long-timeout order
@@ -618,6 +620,11 @@ func (g *Gen) genOp() *Op {
 		g.nextOp = nil
 		return op
 	}
+	if len(g.pendingOps) > 0 {
+		op := g.pendingOps[0]
+		g.pendingOps = g.pendingOps[1:]
+		return op
+	}
 	kinds := make([]string, 0, len(g.p.W))
 	for k := range g.p.W {
 		kinds = append(kinds, k)
@@ -1054,6 +1061,17 @@ func (g *Gen) genKind(k string) *Op {
 			op.W = r.Range(1, 9) // carries a description
 		}
 		return op
+	case "gov_param":
+		// governance changes the node module's offline trigger while the chain runs
+		if len(w.Validators) == 0 || g.proposals >= 2 {
+			return nil
+		}
+		g.proposals++
+		for _, v := range w.Validators {
+			g.pendingOps = append(g.pendingOps, &Op{K: "gov_vote", A: v.Idx, N: int64(g.proposals)})
+		}
+		e.probe("parameter_change_proposal")
+		return &Op{K: "gov_param", A: w.Validators[0].Idx, N: int64([]int{7, 40, 300, 1800, 100000}[r.Intn(5)])}
 	case "node_create":
 		a := g.pickActor(w.Actors)
 		return &Op{K: "node_create", A: a.Idx}
@@ -1221,7 +1239,22 @@ func (g *Gen) genKind(k string) *Op {
 				op.A = acc.Idx // submitted by the new account itself (not bound yet)
 			}
 		}
-		switch r.Pick([]float64{10, 1.5, 1.5, 1, 3, 3, 2, 2, 1.5}) {
+		switch r.Pick([]float64{10, 1.5, 1.5, 1, 3, 3, 2, 2, 1.5, 2}) {
+		case 9:
+			// bind an account that already belongs to the sid a second time, under another account did
+			var bound []*Actor
+			for _, x := range w.Actors {
+				if did := e.sidOf(owner); did != "" && e.sidOf(x) == did {
+					bound = append(bound, x)
+				}
+			}
+			if b := g.pickActor(bound); b != nil {
+				op.Acc = b.Idx + 1
+				op.To = owner.Idx + 1
+				op.A = b.Idx
+				op.Mis = "rebind"
+				e.probe("bound_account_bound_again")
+			}
 		case 7:
 			// the account's signature is over a text naming another DID (a signature it gave elsewhere)
 			op.Mis = "msgdid"
